@@ -19,10 +19,18 @@ def build(case):
             dt, e = case[pos], case[pos + 1]; pos += 2
             if e:
                 tr.append(mido.MetaMessage('end_of_track', time=dt))
-            elif (i + j) % 3 == 0:
-                tr.append(mido.MetaMessage('marker', text='%d:%d' % (i, j), time=dt))
             else:
-                tr.append(mido.Message('control_change', channel=i % 16, control=j % 128, value=(j // 128) % 128, time=dt))
+                v = (i * 7 + j) % 5            # a mix of types (meta incl. set_tempo, channel, sysex): the order must not depend on the type
+                if v == 0:
+                    tr.append(mido.MetaMessage('marker', text='%d:%d' % (i, j), time=dt))
+                elif v == 1:
+                    tr.append(mido.Message('control_change', channel=i % 16, control=j % 128, value=(j // 128) % 128, time=dt))
+                elif v == 2:
+                    tr.append(mido.MetaMessage('set_tempo', tempo=i * 100000 + j + 1, time=dt))
+                elif v == 3:
+                    tr.append(mido.Message('note_on', channel=i % 16, note=j % 128, velocity=(j // 128) % 128, time=dt))
+                else:
+                    tr.append(mido.Message('sysex', data=[i % 128, j % 128, (j // 128) % 128], time=dt))
         tracks.append(tr)
     return tracks
 
@@ -33,6 +41,12 @@ def ident(m, ntracks_hint=None):
     if m.type == 'marker':
         i, j = m.text.split(':')
         return (0, int(i), int(j))
+    if m.type == 'set_tempo':
+        return (0, (m.tempo - 1) // 100000, (m.tempo - 1) % 100000)
+    if m.type == 'note_on':
+        return (0, m.channel, m.note + 128 * m.velocity)
+    if m.type == 'sysex':
+        return (0, m.data[0], m.data[1] + 128 * m.data[2])
     return (0, m.channel, m.control + 128 * m.value)
 
 
@@ -91,6 +105,10 @@ def impl_merge(case):
             mf = mido.MidiFile(type=1, tracks=tracks)
             if [(m.time, repr(m)) for m in mf.merged_track] != [(m.time, repr(m)) for m in merged]:
                 fail = ('merged-track', 'MidiFile.merged_track differs from merge_tracks')
+            if fail is None and len(tracks) == 1:
+                mf0 = mido.MidiFile(type=0, tracks=tracks)
+                if [(m.time, repr(m)) for m in mf0.merged_track] != [(m.time, repr(m)) for m in merged]:
+                    fail = ('merged-track', 'merged_track of a type 0 file differs from merge_tracks of its track: %r' % ([m.type for m in mf0.merged_track][-4:],))
     except Exception as e:  # noqa: BLE001
         out = [-1, core.exn_code(e)]
         fail = ('raises:' + type(e).__name__, 'merge_tracks raised %r for %r' % (e, case[:40]))
